@@ -649,6 +649,160 @@ def exactness_stream(ctx, lad):
     return st
 
 
+# ------------------------------------------------------------------ hardening: asymmetry, bands, state, types
+
+def patterned_dch(of, rng, n, pattern):
+    """DiagonalCoulombHamiltonians with structured hopping matrices"""
+    T = np.zeros((n, n), dtype=complex)
+    V = np.zeros((n, n))
+    for p in range(n):
+        T[p, p] = rng.choice([-0.75, -0.25, 0.5, 1.0])
+    pairs = [(p, q) for p in range(n) for q in range(p)]
+    for k, (p, q) in enumerate(pairs):
+        if pattern == 'imaginary':
+            c = complex(0, rng.choice([-1.0, -0.5, 0.25, 0.75]))
+        elif pattern == 'peierls-ring':
+            c = complex(0, 0.75) if (p - q == 1 or (p == n - 1 and q == 0)) else 0j
+        elif pattern == 'mixed':
+            c = [complex(rng.choice([-1, 0.5]), 0), complex(0, rng.choice([-0.75, 0.5])), 0j,
+                 complex(rng.choice([-0.5, 1]), rng.choice([-1, 0.25]))][k % 4]
+        elif pattern == 'tiny':
+            c = [complex(1e-4, 0), complex(0, -1e-5), complex(0.5, 1e-6), complex(1e-6, 0.75)][k % 4]
+        else:
+            c = complex(rng.choice([-1, 0.5, 0.75]), 0)
+        T[p, q], T[q, p] = c, c.conjugate()
+        V[p, q] = V[q, p] = (rng.choice([1e-4, -1e-5, 0.5]) if pattern == 'tiny' else rng.choice([-1, -0.5, 0.25, 0.75]))
+    return of.DiagonalCoulombHamiltonian(T, V, rng.choice([0.0, 0.75, -1.5]))
+
+
+def hardening_stream(ctx, lad):
+    import cirq
+    of = ctx.of
+    st = Stream('asymmetry-bands-state-types', '(A) hopping matrices with purely imaginary / purely real / zero / complex '
+                'off-diagonal entries (incl. a ring with a pi/2 Peierls phase), (B) entries 1e-4..1e-6 next to O(1) and a '
+                'short evolution time: circuit unitary of LINEAR_SWAP_NETWORK and SPLIT_OPERATOR (orders 0 and 1, controlled '
+                'or not) vs the product of exponentials of the Model generator lists (1e-8); (S) the Hamiltonian object is '
+                'not modified, a second simulate_trotter on the same object gives the same unitary, after an in-place `ham *= 2` '
+                'the circuit follows the NEW content; (T) time / n_steps / order as numpy scalars and ints, one_body as float64 / '
+                'float32 / complex64 / Fortran arrays, qubits as tuple: result = result for the canonical types '
+                '(1e-9; 1e-6 for 32-bit); distinct = distinct cases')
+    rng = rng_for(ctx.seed, 'c15-hard')
+    big = ctx.tier == 'thorough' or ctx.drift
+    lad.prefetch([3, 4])
+
+    def dist(U, V_):
+        st.float_comparisons += 1
+        return phase_diff(U, V_)
+
+    patterns = ['imaginary', 'peierls-ring', 'mixed', 'tiny', 'real']
+    for pattern in patterns:
+        for alg in ('LSN', 'SO'):
+            n = 4 if (pattern == 'peierls-ring' or (big and pattern in ('imaginary', 'mixed'))) else 3
+            ham = patterned_dch(of, rng, n, pattern)
+            ok, ref = safe(st, 'building the reference', {'algorithm': alg, 'pattern': pattern},
+                           lambda: Reference(ctx, lad, alg, ham, n))
+            if not ok:
+                continue
+            configs = [(0, 1, False), (1, 1, False), (0, 2, True), (1, 1, True)]
+            if big:
+                configs += [(0, 3, False), (1, 2, True), (2, 1, False)]
+            for order, n_steps, controlled in configs:
+                time = 0.5 if pattern != 'tiny' else rng.choice([0.5, 1e-3])
+                case = {'family': 'A/B', 'pattern': pattern, 'algorithm': alg, 'n': n, 'order': order, 'n_steps': n_steps,
+                        'time': time, 'controlled': controlled, 'hamiltonian': ham_json(alg, ham)}
+                st.case(case)
+                st.count('%s:%s' % (pattern, alg))
+                ok, U = real_unitary(ctx, st, case, alg, ham, n, time, n_steps, order, controlled, False)
+                if not ok:
+                    continue
+                E, _, R = expected_unitary(ctx, ref, time, n_steps, order, False)
+                compare(st, case, 'formula: circuit = product of exponentials of the step generators (%s hopping, %s)'
+                        % (pattern, alg), U, E, ref.const, time, controlled, R)
+    # ---- (S) state
+    for alg in ('LSN', 'SO', 'LR'):
+        n = 3 if alg != 'LR' else 4
+        ham = patterned_dch(of, rng, n, 'mixed') if alg != 'LR' else eightfold(of, rng, 2)
+        order = 0 if alg == 'LR' else rng.choice([0, 1])
+        case = {'family': 'S', 'algorithm': alg, 'order': order, 'hamiltonian': ham_json(alg, ham)}
+        st.case(case)
+        st.count('S:%s' % alg)
+
+        def arrays(h):
+            if alg == 'LR':
+                return [np.array(h.one_body_tensor), np.array(h.two_body_tensor), np.array(h.constant)]
+            return [np.array(h.one_body), np.array(h.two_body), np.array(h.constant)]
+        snap = [a.copy() for a in arrays(ham)]
+        ok, U1 = real_unitary(ctx, st, case, alg, ham, n, 0.5, 2, order, False, False)
+        if not ok:
+            continue
+        if any(maxdiff(a, b) != 0 for a, b in zip(arrays(ham), snap)):
+            st.violate('S: simulate_trotter modifies the Hamiltonian object', case, {})
+        ok, U2 = real_unitary(ctx, st, case, alg, ham, n, 0.5, 2, order, False, False)
+        if ok and not dist(U2, U1) <= 1e-12:
+            st.violate('S: second simulate_trotter on the same Hamiltonian object differs from the first', case,
+                       {'distance': float(phase_diff(U2, U1))})
+        if alg != 'LR':
+            ham *= 2
+            ok, ref = safe(st, 'building the reference', case, lambda: Reference(ctx, lad, alg, ham, n))
+            ok2, U3 = real_unitary(ctx, st, case, alg, ham, n, 0.5, 2, order, True, False)
+            if ok and ok2:
+                E, _, R = expected_unitary(ctx, ref, 0.5, 2, order, False)
+                compare(st, case, 'S: after the in-place `ham *= 2` the circuit follows the new Hamiltonian (%s)' % alg,
+                        U3, E, ref.const, 0.5, True, R)
+    # ---- (T) types
+    n = 3
+    q3 = cirq.LineQubit.range(n)
+    base = patterned_dch(of, rng, n, 'mixed')
+    Treal = patterned_dch(of, rng, n, 'real')
+
+    def run(alg, one_body, two_body, const, time=0.5, n_steps=2, order=1, qubits=q3):
+        h = of.DiagonalCoulombHamiltonian(one_body, np.array(two_body, dtype=np.float64), const)
+        return circuit_unitary(cirq, of.simulate_trotter(qubits, h, time, n_steps=n_steps, order=order,
+                                                         algorithm=algorithm(of, alg)), list(q3))
+    for alg in ('LSN', 'SO'):
+        canon = run(alg, base.one_body.copy(), base.two_body, base.constant)
+        canon_real = run(alg, Treal.one_body.copy(), Treal.two_body, Treal.constant)
+        canon_t1 = run(alg, base.one_body.copy(), base.two_body, base.constant, time=1.0)
+        variants = [
+            ('one_body float64', lambda: run(alg, Treal.one_body.real.astype(np.float64), Treal.two_body, Treal.constant),
+             canon_real, TOL),
+            ('one_body float32', lambda: run(alg, Treal.one_body.real.astype(np.float32), Treal.two_body, Treal.constant),
+             canon_real, 1e-6),
+            ('one_body complex64', lambda: run(alg, base.one_body.astype(np.complex64), base.two_body, base.constant),
+             canon, 1e-6),
+            ('one_body Fortran order', lambda: run(alg, np.asfortranarray(base.one_body.copy()), base.two_body,
+                                                   base.constant), canon, TOL),
+            ('two_body Fortran order', lambda: run(alg, base.one_body.copy(), np.asfortranarray(base.two_body),
+                                                   base.constant), canon, TOL),
+            ('constant int', lambda: run(alg, base.one_body.copy(), base.two_body, 1), canon, TOL),
+            ('time int', lambda: run(alg, base.one_body.copy(), base.two_body, base.constant, time=1), canon_t1, TOL),
+            ('time numpy.int64', lambda: run(alg, base.one_body.copy(), base.two_body, base.constant, time=np.int64(1)),
+             canon_t1, TOL),
+            ('time numpy.float64', lambda: run(alg, base.one_body.copy(), base.two_body, base.constant,
+                                               time=np.float64(0.5)), canon, TOL),
+            ('time numpy.float32', lambda: run(alg, base.one_body.copy(), base.two_body, base.constant,
+                                               time=np.float32(0.5)), canon, TOL),
+            ('n_steps numpy.int64', lambda: run(alg, base.one_body.copy(), base.two_body, base.constant,
+                                                n_steps=np.int64(2)), canon, TOL),
+            ('n_steps numpy.int32', lambda: run(alg, base.one_body.copy(), base.two_body, base.constant,
+                                                n_steps=np.int32(2)), canon, TOL),
+            ('order numpy.int64', lambda: run(alg, base.one_body.copy(), base.two_body, base.constant,
+                                              order=np.int64(1)), canon, TOL),
+            ('qubits tuple', lambda: run(alg, base.one_body.copy(), base.two_body, base.constant, qubits=tuple(q3)),
+             canon, TOL),
+        ]
+        for tn, f, want, tol in variants:
+            case = {'family': 'T', 'algorithm': alg, 'variant': tn}
+            st.case(case)
+            st.count('T:%s' % tn.split()[0])
+            ok, U = safe(st, 'T: simulate_trotter (%s)' % tn, case, f)
+            if ok and not dist(U, want) <= tol:
+                st.violate('T: simulate_trotter with %s differs from the canonical types (%s)' % (tn, alg), case,
+                           {'distance_up_to_global_phase': float(phase_diff(U, want))})
+    return st
+
+
 def run(ctx):
     lad = Ladders(ctx.driver)
-    return [recursion_stream(ctx), formula_stream(ctx, lad), symmetric_step_stream(ctx, lad), exactness_stream(ctx, lad)]
+    return [recursion_stream(ctx), formula_stream(ctx, lad), symmetric_step_stream(ctx, lad), exactness_stream(ctx, lad),
+            hardening_stream(ctx, lad)]
